@@ -51,6 +51,7 @@ Fifth round: C15.4 the zkutils writers decide that no payload was given by ident
 Sixth round: C15.2 the base-n routines work in integers only (no true division, no float); C15.4 the decoder order is judged in the helper that holds json.loads.
 Seventh round: C15.1 every port group of the rule-file regexes accepts all of 1..65535 (decided by matching the folded sub-expression against every value); C15.5 a list-typed admin field is written with one value per element, none dropped or merged.
 Eighth round: C15.5 the reader selects option groups by their prefix alone (the writer numbers them in hexadecimal); C15.1 a template chosen by a conditional expression and wildcard values prepared in locals are read through.
+Ninth round: C15.1 the writer recognises the wildcard address by value (every comparison with firewall.ANY_IP is == / !=, as the rule classes compare; F20); C15.3 a slot the reader can return as None by the shape of the data is tested against None by the writer (F21: ScheduledTraceEvent wrote why=None as the text 'None'). Both repaired in /repo.
 Does NOT decide round-trip equality and injectivity over the value domains
 (type coercions, port 0 vs wildcard, None vs empty list).
 """
@@ -733,7 +734,18 @@ def _events(ctx, modname, base_name, enum_name):
         whole = K.expr_of_function(ed.raw)
         if whole is None and rets:
             whole = rets[0].value
-        fields, seps = _template_fields(whole) if whole is not None \
+        # a writer with a short form for a None slot (if self.x is None:
+        # return <fewer fields>): the full template is the branch with every
+        # field; the short one is judged by the None-slot clause
+        cands = [whole]
+        if isinstance(whole, ast.IfExp) and isinstance(
+                whole.test, ast.Compare) and len(whole.test.ops) == 1 and \
+                isinstance(whole.test.ops[0], (ast.Is, ast.IsNot)) and \
+                isinstance(whole.test.comparators[0], ast.Constant) and \
+                whole.test.comparators[0].value is None:
+            cands = [whole.body, whole.orelse]
+        parsed = [_template_fields(c) for c in cands if c is not None]
+        fields, seps = max(parsed, key=lambda fs: len(fs[0])) if parsed \
             else ([], '')
         if own:
             ctx.ob('C15.3', ed, rets[0] if rets else None,
@@ -1288,7 +1300,95 @@ def _update_markers(ctx):
                construct='update keeps the deletion markers')
 
 
+def _wildcard_by_value(ctx):
+    """C15.1: a rule whose address is the wildcard is written with the
+    wildcard marker - whatever object spells the address.  The rule classes
+    compare and hash by value, so the writer recognises the wildcard by
+    value too: a test of an address against firewall.ANY_IP is an equality,
+    never an identity (an equal string read from a manifest or built at run
+    time would be written verbatim - ``0.0.0.0/0`` with its slash - into a
+    name the reader cannot decode, while the identical object gives ``*``:
+    one rule, two encodings, one of them undecodable)."""
+    mod = ctx.index.module(RULE)
+    mgr = ctx.index.get_class(RULE, 'RuleMgr')
+    fmt = mgr.methods.get('_filenameify')
+    ctx.require(fmt is not None, 'RuleMgr._filenameify', rule='C15.1')
+    tests = []
+    closure = [fmt] + [f for f in mod.live_functions()
+                       if f is not fmt and any(
+                           K.callee_text(c).split('.')[-1] == f.name
+                           for c in K.calls(fmt.raw))]
+    for func in closure:
+        for sub in K.walk_no_nested(func.raw):
+            if isinstance(sub, ast.Compare) and len(sub.ops) == 1 and any(
+                    N.txt(side).endswith('ANY_IP')
+                    for side in [sub.left] + sub.comparators):
+                tests.append((func, sub))
+    ctx.require(tests, 'tests of an address against ANY_IP in the writer',
+                rule='C15.1', func=fmt)
+    for func, sub in tests:
+        ok = isinstance(sub.ops[0], (ast.Eq, ast.NotEq))
+        ctx.ob('C15.1', func, sub, ok,
+               'the wildcard address is recognised by value (==), as the '
+               'rule classes compare' if ok else
+               'the wildcard address is recognised by identity (%s): an '
+               'equal address that is another object is written verbatim '
+               'into a name the reader cannot decode' % N.txt(sub),
+               construct='wildcard address by value: %s' % N.txt(sub)[:40])
+
+
+def _none_slots(ctx, modname, base_name):
+    """C15.3: a slot the reader can return as None is one the writer can
+    write as None: where from_data sets a slot to the constant None on a
+    branch decided by the shape of the data (no separator), the writer
+    (event_data) tests that slot against None and produces that shape.  A
+    writer that formats the slot unconditionally turns None into the text
+    'None', which the reader hands back as a string."""
+    mod = ctx.index.module(modname)
+    seen = 0
+    for cls in sorted(mod.classes.values(), key=lambda c: c.name):
+        rd = cls.methods.get('from_data')
+        wr = cls.methods.get('event_data')
+        if rd is None or wr is None:
+            continue
+        params = set(rd.params())
+        slots = set()
+        for sub in K.walk_no_nested(rd.raw):
+            if isinstance(sub, ast.If):
+                for branch in (sub.body, sub.orelse):
+                    for st in branch:
+                        if isinstance(st, ast.Assign) and isinstance(
+                                st.value, ast.Constant) and \
+                                st.value.value is None:
+                            for tgt in st.targets:
+                                if isinstance(tgt, ast.Name) and \
+                                        tgt.id not in params:
+                                    slots.add(tgt.id)
+        for slot in sorted(slots):
+            seen += 1
+            tested = any(
+                isinstance(sub, ast.Compare) and len(sub.ops) == 1 and
+                isinstance(sub.ops[0], (ast.Is, ast.IsNot)) and
+                N.txt(sub.left) == 'self.%s' % slot and
+                isinstance(sub.comparators[0], ast.Constant) and
+                sub.comparators[0].value is None
+                for sub in K.walk_no_nested(wr.raw))
+            ctx.ob('C15.3', wr, None, tested,
+                   '%s: the reader can return %s=None (by the shape of the '
+                   'data), and the writer writes a None %s in that shape '
+                   '(it tests self.%s against None)' % (
+                       cls.name, slot, slot, slot) if tested else
+                   '%s: the reader returns %s=None for data without the '
+                   "separator, but the writer formats self.%s "
+                   "unconditionally: None is written as the text 'None' and "
+                   'read back as a string' % (cls.name, slot, slot),
+                   construct='%s None slot %s' % (cls.name, slot))
+    return seen
+
+
 def check(ctx):
+    _wildcard_by_value(ctx)
+    _none_slots(ctx, EV_APP, 'AppTraceEvent')
     _update_markers(ctx)
     _list_values(ctx)
     _option_reader(ctx)
@@ -1309,6 +1409,14 @@ _EA = 'lib/python/treadmill/trace/app/events.py'
 _ES = 'lib/python/treadmill/trace/server/events.py'
 
 MUTANTS = [
+    ('revert-F20-wildcard-by-identity', [(_R, """                    _ANY if rule.src_ip == firewall.ANY_IP else rule.src_ip
+""", """                    _ANY if rule.src_ip is firewall.ANY_IP else rule.src_ip
+""")], 'C15.1'),
+    ('revert-F21-scheduled-none-as-text', [(_EA, """        if self.why is None:
+            return '%s' % self.where
+        return '%s:%s' % (self.where, self.why)
+""", """        return '%s:%s' % (self.where, self.why)
+""")], 'C15.3'),
     ('dnat-parser-drops-dst-port', [(_R, """                    dst_port=(
                         data['dst_port'] if data['dst_port'] != _ANY else None
                     ),
@@ -1326,10 +1434,10 @@ MUTANTS = [
         match = _SNAT_FILE_RE.match(rulespec)""")], 'C15.1'),
     ('snat-writer-no-wildcard-on-src-port', [(_R, """                src_port=(rule.src_port or _ANY),
                 dst_ip=(
-                    '*' if rule.dst_ip is firewall.ANY_IP else rule.dst_ip
+                    '*' if rule.dst_ip == firewall.ANY_IP else rule.dst_ip
                 ),""", """                src_port=rule.src_port,
                 dst_ip=(
-                    '*' if rule.dst_ip is firewall.ANY_IP else rule.dst_ip
+                    '*' if rule.dst_ip == firewall.ANY_IP else rule.dst_ip
                 ),""")], 'C15.1'),
     ('chain-may-contain-colon', [(_R, """_PASSTHROUGH_FILE_RE = re.compile((
     r'^' +
